@@ -108,6 +108,7 @@ class LedgerSim:
         if base in ('hlow', 'hlow_easy'):
             reset_horizon(True)
             cs, root = W.genesis_base()
+            self.cs_genesis = cs
             if base == 'hlow_easy':
                 # block 1 states the trivial target and is trusted history (added the way bulk download adds
                 # blocks: by-itself valid, never validated in chain); everything above it inherits the trivial
@@ -343,6 +344,21 @@ class LedgerSim:
         res.bump('rejected')
         if broken and expect == 'forgery' and len(self.rejected_cands) < 12:
             self.rejected_cands.append((block, now, dict(label)))
+        if expect == 'honest' and not broken and self.cfg.get('trusted_build'):
+            # world building for a network check: a block the reference holds valid but this tree's validation refuses still
+            # becomes part of the starting chains (as trusted history, the way bulk download installs blocks); what the nodes
+            # then make of it is the check's business, not the builder's
+            try:
+                self.cs = before.add_block_no_validation(block)
+            except Exception:
+                self.dead = True
+                return None
+            self.chain.add(block)
+            self.stored.append(bid)
+            self.block_objs[bid] = block
+            res.bump('accepted')
+            res.bump('probe:reference_valid_block_refused_by_validation_installed_as_history')
+            return bid
         if expect == 'honest' and not broken:
             if self.prop in ('C05', 'C01', 'C02'):
                 res.violate(self.prop, '%s/valid-block-rejected' % self.prop,
@@ -410,6 +426,8 @@ class LedgerSim:
                 if 0 < short <= 200 - dl0:
                     block = assemble(n_out, dl0 + short)
                 self.res.bump('probe:block_of_maximum_size' if len(block.serialize()) >= MAX_BLOCK_SIZE - 31 else 'probe:block_near_maximum_size')
+                if len(block.serialize()) == MAX_BLOCK_SIZE:
+                    self.res.bump('probe:block_of_exactly_the_maximum_size')
             elif op.get('reward_outs'):
                 # an honest block whose reward is split over several outputs (some may be worth nothing: the rules bound the
                 # reward's total only), sealed with the repo's constructors
